@@ -1355,7 +1355,10 @@ class Server:
             return True
 
         real_path, virtual_path = self.get_paths(connection, rest)
-        if await connection.path_io.is_dir(real_path.parent):
+        # the parent is resolved through get_paths as well: the parent of the
+        # virtual root is the root itself, never the directory above base_path
+        real_parent, _ = self.get_paths(connection, virtual_path.parent)
+        if await connection.path_io.is_dir(real_parent):
             coro = stor_worker(self, connection, rest)
             task = asyncio.create_task(coro)
             connection.extra_workers.add(task)
